@@ -109,7 +109,11 @@ func c16Row(cr c16Crop, table int) string {
 	put(135, " 5")
 	put(143, "RM ")
 	put(149, "200")
-	put(156, "H1 ")
+	if table == 7 { // organic fertiliser timed by the sowing date (5 days after it) instead of the harvest
+		put(156, "S05")
+	} else {
+		put(156, "H1 ")
+	}
 	put(163, irrlow)
 	put(170, irrdep)
 	put(177, irrmax)
@@ -127,6 +131,12 @@ func c16Specs(tier string, seed int) []c16Spec {
 			for sw := 0; sw < 16; sw++ {
 				out = append(out, c16Spec{Rot: r, Table: t, Switch: sw, Alpha: alpha, D: d})
 			}
+		}
+	}
+	// table 7 (organic fertiliser timed by the sowing date) for the rotations with automatic organic fertiliser
+	for _, r := range []int{5, 6} {
+		for sw := 0; sw < 16; sw++ {
+			out = append(out, c16Spec{Rot: r, Table: 7, Switch: sw, Alpha: alpha, D: d - 1})
 		}
 	}
 	// several configurations in one project folder: the run names its configuration with the fileExtension option
